@@ -28,11 +28,29 @@ static inline std::string rand_name(Rng& g, int maxlen = 9) {
     return s;
 }
 
+// a general (non-GDSII) property, or one that carries the reserved name with another value shape: GDSII cannot hold either, the
+// writer has to step over them wherever they sit in the list (the attribute properties before AND after them must be written)
+static inline void add_general_prop(Rng& g, Property*& props) {
+    std::string nm = "U_" + rand_name(g, 5);
+    switch (g.below(5)) {
+        case 0: set_property(props, nm.c_str(), (uint64_t)g.below(1000), true); break;
+        case 1: set_property(props, nm.c_str(), (int64_t)g.range(-500, 500), true); break;
+        case 2: set_property(props, nm.c_str(), 0.25 * (double)g.range(-40, 40), true); break;
+        case 3: set_property(props, nm.c_str(), rand_name(g, 6).c_str(), true); break;
+        default:  // reserved name, but not the (attribute number, string) shape of a GDSII attribute
+            if (g.coin()) set_property(props, "S_GDS_PROPERTY", (uint64_t)(1 + g.below(120)), true);
+            else set_property(props, "S_GDS_PROPERTY", rand_name(g, 6).c_str(), true);
+    }
+}
+
 static inline void add_gds_props(Rng& g, Property*& props) {
     int n = (int)g.below(3);
+    bool mixed = g.chance(35);
+    if (mixed && g.coin()) add_general_prop(g, props);
     for (int i = 0; i < n; i++) {
         std::string v = rand_name(g, 7);
         set_gds_property(props, (uint16_t)(1 + g.below(120)), v.c_str());
+        if (mixed && g.coin()) add_general_prop(g, props);
     }
 }
 
